@@ -342,6 +342,9 @@ func (in *Interp) load(p Ptr) Value {
 	if p.Obj == nil {
 		in.nilDeref()
 	}
+	if in.track != nil {
+		in.noteAccess(p, false)
+	}
 	v := getPath(p.Obj.Val, p.Path)
 	if p.BIdx != nil {
 		return in.memRead(v.(*ByteMem), p.BIdx)
@@ -352,6 +355,9 @@ func (in *Interp) load(p Ptr) Value {
 func (in *Interp) store(p Ptr, v Value) {
 	if p.Obj == nil {
 		in.nilDeref()
+	}
+	if in.track != nil {
+		in.noteAccess(p, true)
 	}
 	if p.BIdx != nil {
 		m := getPath(p.Obj.Val, p.Path).(*ByteMem)
